@@ -42,10 +42,11 @@ def _work(job):
   return out
 
 
-def run_tv(prop, families, functions, assumptions, design_ref, explanation_extra='', extra_fn=None):
+def run_tv(prop, families, functions, assumptions, design_ref, explanation_extra='', extra_fn=None,
+           level='translation_validation'):
   """families: {name: (n_quick, n_thorough, K or None)}"""
   t0 = time.time()
-  out = fw.Outcome(prop, 'translation_validation', t0)
+  out = fw.Outcome(prop, level, t0)
   thorough = fw.tier() == 'thorough'
   timeout_ms = 300000 if thorough else 60000
   base = fw.seed() * 1000003
